@@ -51,6 +51,8 @@ def cfg_facts(cfg) -> dict:
         # the bank asks for transparent read ports in both of these modes
         "port_transparent": bool(cfg["transparent"] or cfg["read_on_resp"]),
         "array_shape": bool(cfg["elems"]),
+        "array_elem_gt1": bool(cfg["elems"]) and cfg["width"] > 1,
+        "multiport_memory": cfg["memtype"] != "Memory",
     }
 
 
@@ -67,6 +69,9 @@ def zones_of(cfg) -> list:
         z.append("F6")
     if f["read_on_resp"] and f["gran_multi"]:
         z.append("F7")
+    # granularity of array rows: the bank's mask counts elements, the multiport memories count bits
+    if f["array_elem_gt1"] and f["gran_set"] and f["multiport_memory"]:
+        z.append("N1")
     return z
 
 
@@ -346,19 +351,21 @@ class Prop(PropBase):
         memtype = "Memory" if rng.random() < 0.72 else rng.choice(["MultiRead", "XOR", "XORILVT", "OneHotILVT"])
         if want in ("F3", "F5", "F6"):
             memtype = rng.choice(ILVT)
+        elif want == "N1":
+            memtype = rng.choice(["MultiRead", "XORILVT", "OneHotILVT"])
         elif want == "F7" and rng.random() < 0.8:
             memtype = "Memory"
         depth = rng.choice([2, 3, 4, 5, 6, 7, 8, 9, 12])
         width = rng.choice([2, 3, 4, 5, 6, 8])
         elems = 0
-        if memtype == "Memory" and rng.random() < 0.15:  # ArrayLayout rows: granularity counts elements
+        if want != "F3" and rng.random() < (0.9 if want == "N1" else 0.15):  # ArrayLayout rows: granularity counts elements
             width, elems = rng.choice([(1, 4), (2, 2), (2, 3), (2, 4), (3, 2), (4, 2)])
         if want == "F3":
             depth, width = rng.choice([5, 6, 8, 9, 12]), 2
         nr = rng.choice([1, 2, 2, 3])
         nw = 1 if memtype == "MultiRead" else rng.choice([1, 2, 2, 3])
         gran = None
-        if memtype != "XOR" and rng.random() < (0.9 if want in ("F5", "F6", "F7") else 0.45):
+        if memtype != "XOR" and rng.random() < (0.9 if want in ("F5", "F6", "F7", "N1") else 0.45):
             n = elems or width
             divs = [g for g in range(1, n + 1) if n % g == 0]
             gran = rng.choice([1, n // 2 if n % 2 == 0 else 1, rng.choice(divs)])
@@ -371,7 +378,7 @@ class Prop(PropBase):
         if r < self.MIXED_RATE:
             target = "any"
         elif r < self.MIXED_RATE + self.ZONE_RATE:
-            target = rng.choice(["F3", "F5", "F6", "F7", "F7"])
+            target = rng.choice(["F3", "F5", "F6", "F7", "F7", "N1"])
         else:
             target = None
         for _ in range(400):
@@ -397,7 +404,7 @@ class Prop(PropBase):
     def violation_class(self, feats):
         if feats.get("zone", "none") != "none":
             return {"kind": feats["kind"], "zone": feats["zone"]}
-        return {"kind": feats["kind"], "zone": "none", "multiport_memory": feats.get("memtype") != "Memory",
+        return {"kind": feats["kind"], "zone": "none", "multiport_memory": feats.get("multiport_memory"),
                 "read_on_resp": feats.get("read_on_resp"), "gran_multi": feats.get("gran_multi")}
 
     def cfg_signature(self, cfg):
